@@ -279,10 +279,7 @@ def random_run(ctx: Ctx, rng, conc, end_t, warm_t, strategy, *, cmds, p_fault=0.
                 elif c == "Stop":
                     ctl.stop()
                 elif c == "EndReplication":
-                    if ctl.sim.run_state.name in ("INITIALIZED", "STOPPED"):
-                        ctl.end_replication()
-                    else:
-                        continue
+                    ctl.end_replication()
                 elif c == "Cleanup":
                     ctl.cleanup()
                 ctl.observe()
